@@ -182,8 +182,10 @@ class Stock:
             'indices': [lambda: [0, 2]], 'dictionary_': [], 'd_dict': [lambda: {'a': np.array([1, 2]), 'b': {'0': 'x', '1': 'y'}}],
             'a': [lambda: {'a': [1, 2]}, lambda: np.arange(4.0)], 'b': [lambda: {'a': [1, 2]}, lambda: np.arange(4.0)],
             'n_element': [lambda: 3], 'matrix': [lambda: np.eye(3)], 'X': [lambda: np.arange(9.0).reshape(3, 3) + np.eye(3)],
-            'G': [lambda: np.eye(4)], 'n_channel': [lambda: 6], 'sigma_k': [lambda: None], 'residuals': [lambda: np.random.RandomState(0).randn(12, 3)],
-            'measurements': [lambda: np.random.RandomState(1).randn(8, 3)], 'fitter': [lambda: None], 'fit_fun': [lambda: None],
+            'G': [lambda: np.eye(4)], 'n_channel': [lambda: 6], 'sigma_k': [lambda: None], 'residuals': [lambda: np.random.RandomState(0).randn(12, 3), lambda: np.asfortranarray(np.random.RandomState(2).randn(12, 3)),
+                          lambda: np.random.RandomState(3).randn(3, 12).T, lambda: np.random.RandomState(4).randn(12, 1),
+                          lambda: [np.random.RandomState(5).randn(12, 3), np.asfortranarray(np.random.RandomState(6).randn(10, 3))]],
+            'measurements': [lambda: np.random.RandomState(1).randn(8, 3), lambda: np.asfortranarray(np.random.RandomState(7).randn(8, 3))], 'fitter': [lambda: None], 'fit_fun': [lambda: None],
             'train_set': [], 'test_set': [], 'ceil_set': [],
             'mask': [lambda: np.ones((3, 3, 2))], 'center': [lambda: (1, 1, 0)], 'centers': [lambda: np.array([0, 1, 2])],
             'neighbors': [lambda: [np.array([0, 1]), np.array([1, 2]), np.array([0, 2])]], 'events': [lambda: np.array([0, 1, 2, 0, 1, 2])],
